@@ -142,6 +142,11 @@ func validateValue(option *Option, value interface{}) (*valueCache, *ValidationE
 				}
 			}
 		}
+		if v == nil {
+			// Keep an empty list distinguishable from "not set" when it is
+			// written to and read back from the config file.
+			v = []string{}
+		}
 		validated = &valueCache{stringArrayVal: v}
 	case int, int8, int16, int32, int64, uint, uint8, uint16, uint32, float32, float64:
 		// uint64 is omitted, as it does not fit in a int64
